@@ -49,9 +49,11 @@ def cases(tier, seed):
 
 def run_case(case, ctx):
     tmp = tempfile.mkdtemp(prefix="verif-c17-", dir="/var/tmp")
+    cwd = os.getcwd()
     try:
         body(case, ctx, tmp)
     finally:
+        os.chdir(cwd)  # part of the cases change the working directory on purpose
         shutil.rmtree(tmp, ignore_errors=True)
 
 
@@ -131,7 +133,20 @@ def body(case, ctx, tmp):
     md_obj = {"callable": (lambda s, e: {"epoch_meta": e, "tag": "x"}), "dict": {"tag": "fixed", "n": 2}, "none": None,
               "only": (lambda s, e: {"epoch_meta": e})}[md_mode]
     ctx.count({"callable": "metadata_callable", "dict": "metadata_dict", "none": "metadata_none", "only": "metadata_only_runs"}[md_mode])
-    saver = ModelSaver(psv, folder, "ep_{}.pt", save_initial=save_initial, metadata=md_obj, metadata_only=(md_mode == "only"))
+    # in part of the runs the folder is given as a RELATIVE path and the working directory changes between constructing the
+    # saver and training: the files still belong in the folder that was named (and created) at construction
+    rel_folder = i % 4 == 3
+    cwd0 = os.getcwd()
+    if rel_folder:
+        os.chdir(tmp)
+        ctx.count("savers_with_relative_folder")
+    try:
+        saver = ModelSaver(psv, "models" if rel_folder else folder, "ep_{}.pt", save_initial=save_initial, metadata=md_obj,
+                           metadata_only=(md_mode == "only"))
+    finally:
+        if rel_folder:
+            os.makedirs(os.path.join(tmp, "elsewhere"), exist_ok=True)
+            os.chdir(os.path.join(tmp, "elsewhere"))
 
     def logfn(msg):
         rec_log.append((cur["epoch"], msg))
